@@ -202,6 +202,9 @@ def compare_front(ctx, sources, labels=None, impl_prop=True, stats=None):
             ctx.violation("Compile %s on a %s source" % ("panics" if g[0] == "panic" else ("does not return (time or memory)" if g[0] == "hang" else "returns neither a program nor an error"), lab or "generated"),
                           {"source": s, "outcome": g})
             continue
+        if d.get("raw", {}).get("api_diff"):
+            ctx.violation("libvore.Compile disagrees with the parse + generate pipeline on the same source", {"source": s, "difference": str(d["raw"]["api_diff"])[:500]})
+            continue
         if g[0] == "ok" and "(nil" in g[1]:
             ctx.violation("the returned syntax tree contains a hole left by a failed parse", {"source": s, "ast": g[1][:400]})
             continue
